@@ -202,6 +202,38 @@ Proof.
   rewrite (anti_tickinv_gen neg s r [] H). unfold anti. rewrite filter_app. reflexivity.
 Qed.
 
+(* ------------------------------------------------------------------ join with a Bounded build side *)
+
+(* join_multiset_half<'static,'tick> when the build side is complete in the first tick: every
+   probe item meets the whole build side, in probe order -- an EQUALITY of sequences, and no
+   replay, hence no multiset_delta.  What makes it sound: the build input is empty after tick 0. *)
+Lemma half_tickinv_gen : forall m xss (r : list env) R i0, length xss = length r ->
+  concat (stateful LStatic i0 (pair_step m LTick LStatic) ([], R) (combine xss (map (fun _ => []) r)))
+  = pairs_with m (concat xss) R.
+Proof.
+  induction xss as [|xs s IH]; intros [|e r] R i0 H; simpl in H; try discriminate; [reflexivity|].
+  injection H as H. simpl. rewrite app_nil_r. rewrite (IH r R i0 H). rewrite pairs_app_l. reflexivity.
+Qed.
+
+Lemma half_tickinv : forall m xss R (bs : list env), length xss = length bs -> bs <> [] ->
+  concat (op_run LStatic ([], []) (pair_step m LTick LStatic) (combine xss (R :: map (fun _ => []) (tl bs))))
+  = pairs_with m (concat xss) R.
+Proof.
+  intros m [|xs s] R [|e r] H NE; simpl in H; try discriminate; [congruence|].
+  injection H as H. unfold op_run. simpl.
+  rewrite (half_tickinv_gen m s r R ([], []) H). rewrite pairs_app_l. reflexivity.
+Qed.
+
+(* a Bounded top-level stream is complete in the first tick *)
+Lemma bounded_first_tick : forall n, bounded_s n = true -> forall e r,
+  run_s n (e :: r) = den_s n (flat (e :: r)) :: map (fun _ => []) r.
+Proof.
+  induction n; simpl; intros B e r; try discriminate;
+    try (rewrite (IHn B e r); reflexivity);
+    try (rewrite (IHn B e r); simpl; rewrite map_map; reflexivity).
+  reflexivity.
+Qed.
+
 (* ------------------------------------------------------------------ composition over the IR *)
 
 Lemma first_tick_length : forall l (bs : list env), length (first_tick l bs) = length bs.
@@ -261,6 +293,14 @@ Proof.
     apply equiv_congr; [intros; apply filter_perm; assumption | auto].
   - (* SGen *) destruct W as [O W]. rewrite gen_tickinv.
     specialize (IHn bs W NE). rewrite O in IHn |- *. simpl in IHn |- *. rewrite IHn. reflexivity.
+  - (* SJoinHalf *) destruct W as (B & W1 & W2). destruct bs as [|e r]; [congruence|].
+    rewrite (bounded_first_tick n2 B e r).
+    change (map (fun _ : env => @nil val) r) with (map (fun _ : env => @nil val) (tl (e :: r))).
+    rewrite half_tickinv by (auto using run_s_length).
+    pose proof (IHn1 (e :: r) W1 NE) as D1.
+    destruct (ord n1) eqn:O1; destruct (ord n2) eqn:O2; simpl in D1 |- *;
+      try (rewrite D1; reflexivity); apply pairs_perm; try reflexivity;
+      try (rewrite D1; reflexivity); exact D1.
 Qed.
 
 Lemma last_map : forall (f : val -> val) yss,
